@@ -15,16 +15,20 @@ PENDING = "check not built yet (planned, DESIGN.md section 6)"
 CHECKS = {
     "C09": dict(
         category="proof",
-        text="Internal coherence of parser and printers only. Deductive over a token-stream model: ExprParser.argument_list and "
-             "Parser.parameter_list close on ')' with no comma directly before it (a trailing comma is not silently "
-             "accepted), terminate, raise only RuntimeError/NotImplementedError; the expression printer methods produce "
-             "token-safe text (oracle W1-W3). Bounded (labelled): parse(gen_decl(parse(d))) == parse(d) over a declarator "
-             "grammar, C rendering turns references into pointers one for one, printer/parser stability on expressions. "
-             "One genuine defect found and fixed.",
-        design_ref="6/C09",
-        note="Agreement with a C++ compiler is NOT covered (needs g++ as oracle). Sub-parsers are used through trusted "
-             "contracts; precedence shape of ExprParser.expression and the declarator renderings are only in the bounded monitor.",
-        technique="contract-based deductive verification (AST-generated VCs over a token-stream model) + bounded round trip",
+        text="Deductive: ExprParser.argument_list and Parser.parameter_list over a token-stream model close on ')' with no "
+             "comma directly before it, terminate, raise only RuntimeError/NotImplementedError; the '(void)' rule of "
+             "Parser.declaration (the parameter list is emptied exactly for a single unnamed, declarator-less void); the "
+             "expression printer methods produce token-safe text (oracle W1-W3). Effect judgement over the real source "
+             "(interprocedural alias/effect inference): no renderer or query of declast.Declaration/Declarator/Ptr and no "
+             "PrintNode visitor mutates the node it renders. Bounded (labelled): g++ static_assert(std::is_same) between "
+             "~290 declarations and shroud's rendering of them; every parenthesisation of <= 4 operands keeps its structure "
+             "through print and re-parse; parse(gen_decl(parse(d))) == parse(d) over a declarator grammar; renderers leave "
+             "the node unchanged. One genuine defect found and fixed.",
+        design_ref="6/C09, 12",
+        note="Agreement with a C++ compiler only through the bounded monitor. Sub-parsers are used through trusted "
+             "contracts; ExprParser.expression precedence, declaration_specifier/declarator/pointer and the gen_decl family "
+             "have no contract of their own.",
+        technique="contract-based deductive verification (AST-generated VCs over a token-stream model) + effect inference + bounded g++ oracle / round trip",
     ),
     "C08": dict(
         category="proof",
@@ -106,31 +110,43 @@ CHECKS = {
         technique="contract-based deductive verification (AST-generated VCs, z3+cvc5)",
     ),
     "C04": dict(
-        category="other",
-        text="Contracts on constant data, decided exhaustively on every run: for every statement row that carries its own "
-             "declarations (arg_decl) the C parameter and the Fortran dummy are interoperable by an independent oracle "
-             "written from ISO/IEC 1539-1 clause 18; every buf_args member is one the argument-list builders accept; the "
-             "typemap table's f_kind/f_type/f_cast name the ISO_C_BINDING kind of c_type; the paired C struct / Fortran "
-             "bind(C) type of the capsule and array descriptors agree member by member; SH_TYPE_* tables agree name by name "
-             "and value by value; every bind(C) helper interface names a defined C function with the same arity and "
-             "interoperable parameters. Evaluated on the tables the real modules build for language c and c++.",
-        design_ref="6/C04, Appendix B",
-        note="Not covered: the per-argument agreement produced by build_proto_list x build_arg_list_interface (relational "
-             "contract planned), function result types, user overrides. Trusted: the oracle transcription, small text parsers.",
-        technique="exhaustive evaluation of table invariants (contracts over constant tables) against an interoperability oracle",
+        category="proof",
+        text="Relational contracts, discharged by SMT on every run: wrapc.Wrapc.build_proto_list, "
+             "wrapf.Wrapf.build_arg_list_interface (plain and template-argument shape) and wrapf.Wrapf.build_arg_list_impl walk "
+             "the same buf_args list; each is proved, for every list and every iteration, to emit exactly one C parameter / "
+             "one Fortran dummy / one actual argument per buf_arg, in order, of the class a shared descriptor table gives for "
+             "that kind (type, by value vs pointer, VALUE attribute, ISO_C_BINDING kind registered for USE, kind named in the "
+             "actual argument), to accept the same eight kinds and raise RuntimeError otherwise; the table's pairs are judged "
+             "by an independent interoperability oracle (ISO/IEC 1539-1 clause 18). Result type: the C return type decision "
+             "(wrap_function) and the interface's result declaration (wrap_function_interface) against one decision table; "
+             "the abstract interface of a function-pointer argument declares the function pointer's result. Closed "
+             "invariants decided exhaustively: paired c_arg_decl/f_arg_decl rows, typemap kinds, paired struct/derived type "
+             "and SH_TYPE tables, helper bind(C) interfaces, and agreement of the three sites that look up 'the C statement "
+             "row' on the whole key domain (keys read from the source, real lookup function). Bounded (labelled): gfortran "
+             "-fc-prototypes of every generated module vs the generated C header on the corpus and ~2 900 synthetic "
+             "libraries. Two genuine defects found and fixed.",
+        design_ref="6/C04, Appendix B, 12",
+        note="Trusted: Declaration.gen_arg_as_c / bind_c as abstract strings (their agreement is not proved), set_f_module / "
+             "update_f_module bodies, wformat model for constant templates, metaattrs/attrs set by generate.py. Not covered: "
+             "user overrides (C_prototype, F_C_arguments, fstatements), the 'this' argument slice (U5).",
+        technique="contract-based deductive verification (relational contracts against a shared descriptor table, AST-generated VCs, z3+cvc5) + exhaustive table invariants + bounded gfortran oracle",
     ),
     "C05": dict(
         category="proof",
-        text="Necessary conditions only. (1) Helper closure over the statement and helper tables, decided exhaustively on "
-             "every run for c and c++: every Shroud* function a row's templates call is defined by a helper the row lists or "
-             "reaches through dependent_helpers; helpers exist; dependent_helpers acyclic. (2) Deductive (VCs from the real "
-             "source, z3/cvc5): preprocessor conditionals opened by util.Header.write_includes_for_header, "
-             "write_include_group, util.extern_C and Wrapc.write_header are closed on every path, never negative, and the "
-             "include-guard macro of #ifndef/#define is the one in the closing comment.",
-        design_ref="6/C05",
-        note="Not covered: acceptance of whole emitted files by gcc/g++/gfortran, Fortran USE/IMPORT bookkeeping, helper "
-             "hand-off between modules (gather_helper_code), Python/Lua tables. Trusted: callee lines balanced.",
-        technique="contract-based deductive verification (AST-generated VCs) + exhaustive table invariants",
+        text="Necessary conditions only. Closed invariants over the statement and helper tables, decided exhaustively on "
+             "every run for c and c++: every Shroud* function a row calls is defined by a helper it lists or reaches; "
+             "helpers exist, dependent_helpers acyclic; a row that calls a <string.h> function brings the header in; a "
+             "Fortran row that declares a helper-defined derived type lists the helper; a C helper a Fortran row relies on "
+             "has source for the library's language. Deductive (VCs from the real source): preprocessor conditionals of the "
+             "header writers are balanced and the include guard matches; wrapf.gather_helper_code hands every C helper of a "
+             "module to the shared table (whole-view postcondition); build_arg_list_impl / build_arg_list_interface register "
+             "for USE exactly the kind they name. Bounded (labelled): gfortran -fsyntax-only on every generated module of the "
+             "corpus (plain, F_CFI, c/c++), gcc/g++/gfortran on ~80 user-guide declaration patterns each wrapped alone, link "
+             "closure of helper names. Six genuine defects found and fixed, one recorded as known finding.",
+        design_ref="6/C05, 12",
+        note="Not covered: linking against a user library, Python/Lua sources, declaration order inside files. The compile "
+             "runs are bounded stand-ins, never counted as proved.",
+        technique="contract-based deductive verification (AST-generated VCs) + exhaustive table invariants + bounded compiler runs",
     ),
     "C10": dict(
         category="proof",
@@ -147,16 +163,18 @@ CHECKS = {
     ),
     "C06": dict(
         category="proof",
-        text="Deductive, generator-level core only: the destructor (capsule) table of wrapc.Wrapc as a data structure "
-             "against an abstract view (ghost inverse map): add_capsule_code, add_destructor, find_idtor, compute_idtor "
-             "(slice) and the switch emission of write_capsule_code (slice) preserve well-formedness, never change an "
-             "existing entry, return/assign exactly the index of the selected destructor name, never assign a destructor "
-             "to library-owned or non-pointer values, emit one case block per entry labelled with the index handed out, "
-             "and always emit the reset of addr/idtor. Callers checked against callee contracts.",
-        design_ref="6/C06, A.7",
-        note="Trusted: pyvc, z3/cvc5, wformat/append_format contracts, typemap-cache precondition. Not covered: run-time "
-             "behaviour of emitted code under any call sequence (needs execution), wrapp.py reference counting.",
-        technique="contract-based deductive verification (AST-generated VCs, z3+cvc5)",
+        text="Deductive, generator-level core and the release helpers: the destructor (capsule) table of wrapc.Wrapc as a "
+             "data structure against an abstract view (add_capsule_code, add_destructor, find_idtor, compute_idtor, "
+             "write_capsule_code): well-formedness preserved, existing entries never change, the index returned is the one "
+             "emitted as case label. Mini-C proofs on the helper texts the real module builds (c and c++): ShroudStrAlloc/"
+             "Free, ShroudStrArrayAlloc/Free free exactly what they allocate; ShroudCopyStringAndFree and ShroudCopyArray "
+             "release the capsule exactly once on every path, write only inside the destination, never pass NULL to "
+             "strncpy/memcpy. Table invariant: temporaries allocated by a row are released by it. Two genuine defects fixed.",
+        design_ref="6/C06, A.7, 12",
+        note="Trusted: pyvc, mini-C front end, z3/cvc5, wformat contracts, typemap-cache precondition, contract of the "
+             "generated memory destructor as seen by the copy helpers. copy_array computes its byte count in int: proved "
+             "under the stated limit n*elem_len <= INT_MAX. Not covered: run-time call sequences, wrapp.py reference counts.",
+        technique="contract-based deductive verification (AST-generated VCs for Python, mini-C symbolic execution for the C helpers, z3+cvc5)",
     ),
     "C17": dict(
         category="proof",
